@@ -363,6 +363,24 @@ inductive TOut
   | lexFallback
   | done (r : Except Err Response)
 
+/-- the recency re-sort is only applied to two or more results -/
+def reranked (B : Box) (evaluated0 : List Ev) : List Ev :=
+  if evaluated0.length > 1 then B.rerank evaluated0 else evaluated0
+
+/-- `try_tantivy_search` from `if evaluated.is_empty()` to the end -/
+def assemble (frames : List Frame) (req : Request) (evaluated : List Ev) (stale : Nat) : TOut :=
+  if evaluated.isEmpty then .lexFallback
+  else if totalSlices evaluated = 0 then .lexFallback
+  else match Mv.Page.parseCursor req.cursor (totalSlices evaluated) with
+    | .error e => .done (.error (.cursor e))
+    | .ok offset =>
+      .done (.ok { hits := (asmOuter frames offset (max req.topK TOP_K_FLOOR) evaluated ([], 0)).1,
+                   totalHits := totalSlices evaluated,
+                   nextCursor :=
+                     if (asmOuter frames offset (max req.topK TOP_K_FLOOR) evaluated ([], 0)).2 < totalSlices evaluated
+                     then some (asmOuter frames offset (max req.topK TOP_K_FLOOR) evaluated ([], 0)).2 else none,
+                   engine := .tantivy, staleSkips := stale })
+
 def tryTantivy (B : Box) (V : Variant) (frames : List Frame) (req : Request) (expr : Expr)
     (tokens : List Str) (engine : Option (List Nat)) (hasLexData : Bool) : TOut :=
   match engine with
@@ -373,20 +391,7 @@ def tryTantivy (B : Box) (V : Variant) (frames : List Frame) (req : Request) (ex
     else
       match firstLoop B V frames req expr (tokens.flatMap B.analyse) searchHits with
       | none => .done (.error .panic)
-      | some (evaluated0, stale) =>
-        let evaluated := if evaluated0.length > 1 then B.rerank evaluated0 else evaluated0
-        if evaluated.isEmpty then .lexFallback
-        else
-          let total := totalSlices evaluated
-          if total = 0 then .lexFallback
-          else match Mv.Page.parseCursor req.cursor total with
-            | .error e => .done (.error (.cursor e))
-            | .ok offset =>
-              let k := max req.topK TOP_K_FLOOR
-              let st := asmOuter frames offset k evaluated ([], 0)
-              .done (.ok { hits := st.1, totalHits := total,
-                           nextCursor := if st.2 < total then some st.2 else none,
-                           engine := .tantivy, staleSkips := stale })
+      | some (evaluated0, stale) => assemble frames req (reranked B evaluated0) stale
 
 /-! ### `search_with_filters_only` -/
 
